@@ -121,6 +121,24 @@ def ndjsonLoop {δ : Type} (prg : Prog δ) (b : Bool) (var : String) :
 def ndjson {δ : Type} (prg : Prog δ) (b : Bool) (var : String) (act : Activation δ) (ls : List (Line δ)) : Res :=
   ndjsonLoop prg b var act ls St.ndjsonInit
 
+/-! ### the input text: `for document in sys.stdin` -/
+
+/-- `for document in sys.stdin`: the input text cut after every `'\n'` (text-mode line iteration; the `'\n'` stays at the
+end of its line; a last line without `'\n'` is a line; no other character ends a line) -/
+def splitLines : List Char → List (List Char)
+  | [] => []
+  | c :: cs =>
+      if c = '\n' then [c] :: splitLines cs
+      else match splitLines cs with
+        | [] => [[c]]
+        | l :: ls => (c :: l) :: ls
+
+/-- the NDJSON branch on the input TEXT: every line of `for document in sys.stdin` is handed to the JSON decoder
+(`decode`: the text of one line ↦ what `json.loads(document, cls=CELJSONDecoder)` does with it) -/
+def ndjsonText {δ : Type} (prg : Prog δ) (b : Bool) (var : String) (act : Activation δ) (decode : List Char → Line δ)
+    (text : List Char) : Res :=
+  ndjson prg b var act ((splitLines text).map decode)
+
 /-! ### `--null-input` -/
 
 /-- the `if options.null_input:` branch of `main` -/
